@@ -328,6 +328,49 @@ def gen_expr(ctx, mode, params, prows):
 N_CHOICES = [1, 2, 3, 7, 40]
 
 
+def fixed_cases(ctx, start):
+    """situations that get a FIXED share of every run instead of being left to the draw (each was needed by a seeded change
+    that the random stream caught only sometimes):
+      (1) boundary of an OVERLAPPING union sampled through the one-point-per-row path (n = 1, several parameter rows) — the loop
+          `_random_boundary_points_if_n_eq_1` must test proposals with the boundary test, not with membership in the union;
+      (2) intersection with a TINY parallelogram partner (length scale 2^-20) inside a much larger first operand — almost every
+          proposal has to be rejected by the partner's membership test at that scale."""
+    from geomgen import c as C, PF, dy
+    rng = ctx.rng
+    out = []
+    reps = ctx.scale(8, 40)
+    for j in range(reps):
+        # (1) two overlapping shapes: B's centre sits on A's rim region
+        cx, cy, r = dy(rng, -2, 2), dy(rng, -2, 2), dy(rng, 0.75, 2)
+        mv = ("*", C(Fr(rng.choice([1, 2, -1]), 4)), ("v", "t", 0))
+        a = Node("circle", "x", [PF([("+", C(cx), mv), C(cy)]), PF([C(r)])])
+        if j % 2:
+            b = Node("circle", "x", [PF([("+", C(cx + r * Fr(3, 4)), mv), C(cy + r / 4)]), PF([C(r * Fr(3, 4))])])
+        else:
+            b = Node("par", "x", [PF([("+", C(cx), mv), C(cy - r / 2)]), PF([("+", C(cx + 2 * r), mv), C(cy)]), PF([("+", C(cx), mv), C(cy + r)])])
+        node = Node("bdry", None, [], [Node("union", None, [], [a, b] if j % 4 < 2 else [b, a])])
+        k = rng.choice([2, 3])
+        prows = gen_prows(rng, ["t"], k)
+        out.append(dict(id=start + len(out), mode="bdry", dom=node.describe(), params=["t"], prows=prows_json(prows),
+                        call=dict(api=rng.choice(["dom.random", "smp.uniform"]), n=1), seed=rng.randint(0, 2 ** 31 - 1)))
+    for j in range(reps):
+        # (2) tiny parallelogram inside a disc of three times its size, both at scale 2^-20 (every second one at 2^-20 exactly)
+        sigma = Fr(1, 2 ** 20)
+        o = [dy(rng, -2, 2), dy(rng, -2, 2)]
+        while True:
+            d1, d2 = [dy(rng, -2, 2), dy(rng, -2, 2)], [dy(rng, -2, 2), dy(rng, -2, 2)]
+            if abs(d1[0] * d2[1] - d1[1] * d2[0]) >= 1:
+                break
+        par = Node("par", "x", [PF([C(o[0]), C(o[1])]), PF([C(o[0] + d1[0]), C(o[1] + d1[1])]), PF([C(o[0] + d2[0]), C(o[1] + d2[1])])])
+        ctr = [o[0] + (d1[0] + d2[0]) / 2, o[1] + (d1[1] + d2[1]) / 2]
+        disc = Node("circle", "x", [PF([C(ctr[0]), C(ctr[1])]), PF([C(Fr(6))])])
+        node = scale_node(Node("inter", None, [], [disc, par]), sigma)
+        api = ["dom.random", "smp.uniform", "sel.random", "smp.lhs"][j % 4]
+        out.append(dict(id=start + len(out), mode="sel" if api.startswith("sel.") else "solid", dom=node.describe(), params=[], prows=[],
+                        call=dict(api=api, n=rng.choice([2, 7, 20]), scale=str(sigma)), seed=rng.randint(0, 2 ** 31 - 1)))
+    return out
+
+
 def make_case(ctx, idx):
     rng = ctx.rng
     mode = rng.choice(["prim", "prim", "primbdry", "primbdry", "solid", "solid", "solid", "solid", "bdry", "bdry", "prod", "sel", "sel", "thin", "thin",
@@ -933,7 +976,7 @@ def run(ctx, rep, cases=None, _intensified=False):
         # polygons inside operations, composed samplers with the own-row oracle
         import c01_opaque
         c01_opaque.run(ctx, rep)
-        cases = []
+        cases = fixed_cases(ctx, 10 ** 5)
         want = ctx.scale(600, 6000)
         i = 0
         while len(cases) < want and i < 4 * want:
